@@ -478,6 +478,15 @@ func (h *harness) startup(fileYAML map[string]any, rawYAML string, env map[strin
 			h.r.Count("start_ups_with_the_option_and_BHS_CONFIG_FILE_pointing_elsewhere", 1)
 		}
 	}
+	if path != "" && explicitPath == "" && form >= 0 && h.nfile%5 == 4 {
+		// the file is named relative to the working directory (as in `cd /etc/bhs && block-headers-service -C my.yaml`);
+		// the program's own directory (where the test binary lies) is elsewhere
+		if old, err := os.Getwd(); err == nil && os.Chdir(filepath.Dir(path)) == nil {
+			defer func() { _ = os.Chdir(old) }()
+			path = []string{"", "./"}[h.nfile%2] + filepath.Base(path)
+			h.r.Count("start_ups_with_the_file_named_relative_to_the_working_directory", 1)
+		}
+	}
 	oldArgs, oldStdout := os.Args, os.Stdout
 	defer func() { os.Args, os.Stdout = oldArgs, oldStdout }()
 	os.Stdout = h.devnull // the repo's default logger writes to os.Stdout
